@@ -520,19 +520,27 @@ Ltac close17 := intros Ha; norm_goal; repeat canon1 Ha;
 
 
 class RCase(coqgen.Case):
-    def __init__(self, name, out, inp, pool, aff, note, once=True):
+    """value obligation + the syntactic normal form the configuration promises:
+    pred="once" (default restriction configured), "prop" (propagation without defaults), None"""
+
+    def __init__(self, name, out, inp, pool, aff, note, once=True, pred=None):
         super().__init__(name, out=out, inp=inp, hyps=[f"affine_mesh = {aff}"], note=note, ctx=ctx_for(pool),
                          tactic="close17", side="None")
-        self.aff, self.once = aff, once
+        self.aff = aff
+        self.pred = pred if pred is not None else ("once" if once else None)
 
     def emit(self):
         txt = super().emit()
         # the generic emitter introduces hypotheses itself; close17 does its own intros
         txt = txt.replace("Proof. intros H0; try norm_hyp H0; close17. Qed.", "Proof. close17. Qed.")
-        if self.once:
+        if self.pred == "once":
             txt += (f"Example {self.name}_once : once_ok table (fun id => Nat.ltb id {NCONT}) {self.aff} "
                     f"{self.name}_out = true.\nProof. vm_compute. reflexivity. Qed.\n")
             self.lemmas.append(f"{self.name}_once")
+        elif self.pred == "prop":
+            txt += (f"Example {self.name}_prop : prop_ok table (fun id => Nat.ltb id {NCONT}) {self.aff} "
+                    f"{self.name}_out = true.\nProof. vm_compute. reflexivity. Qed.\n")
+            self.lemmas.append(f"{self.name}_prop")
         return txt
 
 
@@ -559,7 +567,7 @@ def build_t2(run):
             if out is None:
                 raised.append((nm, e, p, drname, err))
                 continue
-            cases.append(RCase(f"{nm}_{drname}", out, e, p, aff, note, once=(drname == "dplus")))
+            cases.append(RCase(f"{nm}_{drname}", out, e, p, aff, note, pred="once" if drname == "dplus" else "prop"))
     # the same through the form pipeline (compute_form_data), for EVERY interior-facet integral type
     for mname, mlabel, measure in PIPE_MEASURES:
         p = Pool(ms[mname])
@@ -567,29 +575,37 @@ def build_t2(run):
         for k, e in enumerate(fixed_integrands(p)):
             if mlabel == "dS_v" and k % 2 and k < 14 and run.tier == "quick":
                 continue
-            for defaults in (True, False) if k in (0, 3, 12) else (True,):
-                nm = f"P_{mlabel}_{k}_{'on' if defaults else 'off'}"
-                note = {"class": "pipeline", "mesh": mname, "measure": mlabel, "default": "dplus" if defaults else "none",
-                        "integrand": str(e)[:300], "call": f"compute_form_data(integrand*{mlabel}, "
-                                                           f"do_apply_default_restrictions={defaults})"}
-                out, itype, err = pipeline_integrand(e, measure, defaults)
+            combos = FLAG_COMBOS if (k in (0, 3, 8, 12) or run.tier == "thorough") else FLAG_COMBOS[:1]
+            for restr, defaults in combos:
+                nm = f"P_{mlabel}_{k}_r{int(restr)}d{int(defaults)}"
+                call = (f"compute_form_data(integrand*{mlabel}, do_apply_restrictions={restr}, "
+                        f"do_apply_default_restrictions={defaults})")
+                # what each combination promises: propagation + defaults -> `once`; propagation only ->
+                # restrictions moved onto terminals (prop_ok); no propagation -> value only
+                pred = ("once" if defaults else "prop") if restr else "value"
+                note = {"class": "pipeline", "mesh": mname, "measure": mlabel,
+                        "default": "dplus" if (restr and defaults) else "none",
+                        "integrand": str(e)[:300], "call": call, "promise": pred}
+                out, itype, err = pipeline_integrand(e, measure, defaults, restr)
                 if out is None:
-                    raised.append((nm, e, p, note["call"], err))
+                    raised.append((nm, e, p, call, err))
                     continue
                 note["integral_type"] = itype
-                cases.append(RCase(nm, out, e, p, aff, note, once=defaults))
+                cases.append(RCase(nm, out, e, p, aff, note, once=False, pred=None if pred == "value" else pred))
     return cases, raised
 
 
+# (do_apply_restrictions, do_apply_default_restrictions)
+FLAG_COMBOS = [(True, True), (True, False), (False, True), (False, False)]
 PIPE_MEASURES = [("affine", "dS", ufl.dS), ("extruded", "dS_h", ufl.dS_h), ("extruded", "dS_v", ufl.dS_v)]
 
 
-def pipeline_integrand(e, measure, defaults=True):
+def pipeline_integrand(e, measure, defaults=True, restr=True):
     """integrand of the single integral of compute_form_data(e*measure) (no pullbacks / scaling / geometry
     lowering: algebra lowering, derivatives and restriction propagation only)"""
     from ufl.algorithms import compute_form_data
     try:
-        fd = compute_form_data(e * measure, do_apply_default_restrictions=defaults)
+        fd = compute_form_data(e * measure, do_apply_default_restrictions=defaults, do_apply_restrictions=restr)
     except KeyboardInterrupt:
         raise
     except BaseException as ex:      # ArityMismatch derives from BaseException
@@ -610,8 +626,9 @@ def pipeline_rejections():
                ("missing", cg * v), ("double", dg("+")("-") * v("+")), ("double", (cg * dg("-"))("+") * v("-"))]
         if p.dd is not None:
             bad += [("missing", p.dd * v("+")), ("missing", cg * p.dd * v("-")), ("double", p.dd("-")("-") * v("+"))]
-        for cls, e in bad:
-            out, itype, err = pipeline_integrand(e, measure, True)
+        bad = [(c, e, True) for c, e in bad] + [(c, e, False) for c, e in bad if c == "double"]
+        for cls, e, defaults in bad:
+            out, itype, err = pipeline_integrand(e, measure, defaults, True)
             ser = ufl2coq.Ser(ctx_for(p), prefix=f"q{k}_n", share=False)
             ti = ser.expr(e)
             chk = "true" if cls == "missing" else "false"
@@ -620,7 +637,8 @@ def pipeline_rejections():
                          f"Proof. vm_compute. reflexivity. Qed.\n")
             if err is None:
                 fails.append({"class": cls, "integrand": str(e), "measure": mlabel, "mesh": mname,
-                              "call": f"compute_form_data(integrand*{mlabel})",
+                              "call": f"compute_form_data(integrand*{mlabel}, do_apply_restrictions=True, "
+                                      f"do_apply_default_restrictions={defaults})",
                               "observed": f"accepted, integrand {out}", "expected": "an exception"})
             k += 1
     return lines, fails
@@ -758,6 +776,11 @@ def main(run):
         seen.add(case.name)
         rep = {"broken_obligation": lemma, "case": case.name, "note": case.note, "coq_message": msg,
                "integrand": str(case.inp), "propagated": str(case.out)[:3000], "reproduce": "bin/check C17"}
+        if lemma and lemma.endswith("_prop"):
+            rep["what"] = ("the output is not in propagated normal form: a restriction is left on a non-terminal "
+                           "expression (or on a terminal of an ignored class) although propagation was requested")
+            run.violation(rep, True)
+            continue
         if lemma and lemma.endswith("_once"):
             rep["what"] = ("the output violates `once`: a terminal of an ignored class is restricted, or another "
                            "terminal / Grad is not under exactly one restriction placed directly on it")
@@ -854,19 +877,31 @@ def rule_witness(d):
 
 
 def search_table_witness(tab, lit):
-    """A class that the table ignores / default-restricts although it is side dependent gives a value
-    mismatch on the simplest integrand t('-')."""
+    """A class that the table ignores / default-restricts although it is side dependent: either the value of
+    t('-') changes (ignored), or the unrestricted terminal is accepted and silently given the default side."""
     ms = meshes()
     mesh = ms["affine"]
+    found = []
     for label, t, _ in terminals_of(mesh):
         name = label.split("-")[0]
-        k = {"Coefficient": 0, "Argument": 1, "Constant": 2}.get(name, ufl2coq.KIND_OF_GEOMETRY.get(name))
+        if name == "Coefficient":
+            continue
+        k = {"Argument": 1, "Constant": 2}.get(name, ufl2coq.KIND_OF_GEOMETRY.get(name))
         if tab.get(k) in ("HIgnore", "HDefault") and name not in SIDE_INDEPENDENT:
-            e = t("-") if t.ufl_shape == () else t("-")[(0,) * len(t.ufl_shape)]
+            comp = (0,) * len(t.ufl_shape)
+            e = t("-") if not comp else t("-")[comp]
             out, err = run_real(e, mesh, "dplus")
-            if out is None:
-                continue
-            w = two_sided_mismatch(out, e, True, trials=20)
-            if w:
-                return {"integrand": str(e), "propagated": str(out), "values": w}
+            if out is not None:
+                w = two_sided_mismatch(out, e, True, trials=20)
+                if w:
+                    return {"integrand": str(e), "propagated": str(out), "values": w}
+            e = t if not comp else t[comp]
+            out, err = run_real(e, mesh, "dplus")
+            if out is not None:
+                found.append({"integrand": str(e), "terminal_class": name, "call": "apply_restrictions(integrand, "
+                              "default_restrictions={mesh: '+'})", "observed": f"accepted, result {out}",
+                              "expected": "ValueError (the quantity differs between the two cells and carries no "
+                                          "restriction)"})
+    if found:
+        return {"accepted_inputs_that_must_be_rejected": found[:8]}
     return None
